@@ -499,3 +499,12 @@ package cgroup
 //@   assigns nothing
 //@   ensures len(result) <= 5
 //@   loop 0: invariant -1 <= rangeindex && rangeindex < 5 && len(slicelit) == 5 && len(names) <= rangeindex + 1 && cap(names) == 5 && fresh(names)
+
+// FindMemoryStatProperty scans the group's own memory.stat for the named property (memory safety; the value
+// parsed by Fscanln is not modelled, and the loop ends when the reader is exhausted - an error is then returned)
+//@ func pkg/cgroup.(*V1).FindMemoryStatProperty props C20
+//@   arith int
+//@   requires c != nil
+//@   assigns nothing
+//@   callsite (*v1controller).ReadFile: assert @C20 c == caller_c.memory && name == "memory.stat"
+//@   loop 0: invariant r != nil
